@@ -165,10 +165,11 @@ def _worker_collect(k):
     ex = _EX
     s = ex.store[k][0]
     out = []
-    for post, rv in ex.step(s, True):
-        c = ex.canon(post)
-        out.append({'from': ex.state_name(s), 'from_key': k, 'to': ex.state_name(c), 'to_key': ex.key(c),
-                    'post': c, 'raw_post': post, 'ret': rv, 'trace': post.trace})
+    for env, pre, outs in ex.step_env(s, True):
+        for post, rv in outs:
+            c = ex.canon(post)
+            out.append({'from': ex.state_name(s), 'from_key': k, 'to': ex.state_name(c), 'to_key': ex.key(c),
+                        'post': c, 'raw_post': post, 'ret': rv, 'trace': post.trace, 'env': env, 'pre_env': pre})
     return out
 
 
@@ -488,36 +489,51 @@ class Explorer:
         return '?'
 
     # ------------------------------------------------------------------ stepping
-    def pre_step(self, s, with_trace):
-        """environment actions between two steps (API calls, the other machine)"""
-        s = s.copy()
+    def env_states(self, s0):
+        """the states a step may start from: s0 itself, and s0 after each action of the environment
+        that touches the command machine's fields between two service calls - the release request,
+        from the application (cat_hold_exit) or from an event handler (same helper).  The action is
+        not modelled: the body of cat_hold_exit is interpreted on the state, for either status.
+        (Outside a hold the request changes nothing: that is rule C14/spurious, checked on the
+        function itself.)"""
+        s = s0.copy()
         s.trace = None
-        it = self.it
         s.pnull['MUTEX'] = True           # locking is C16's subject, not the machines'
+        outs = [('none', s)]
         if self.which == 'cmd':
             hf = s.mem.get(('S', 'hold_state_flag'))
             if not (is_lin(hf) and hf.is_const() and hf.const == 0):
-                # cat_hold_exit / an event handler may have requested the release
-                s.facts.drop_atoms(lambda a: a == 'f:hold_exit_status')
-                cur = s.mem.get(('S', 'hold_exit_status'))
-                lo, hi = (-1, 1)
-                if is_lin(cur):
-                    lo, hi = min(lo, s.facts.lower(cur)), max(hi, s.facts.upper(cur))
-                s.mem[('S', 'hold_exit_status')] = it.fresh(s, 'f:hold_exit_status', None, (lo, hi))
-        return s
+                E = self.ms.prog.enums
+                for nm, status in (('release(OK)', E['CAT_STATUS_OK']), ('release(ERROR)', E['CAT_STATUS_ERROR'])):
+                    for s2, rv in self.it.run_function('cat_hold_exit', s.copy(), [SELF, Lin.c(status)]):
+                        s2.trace = None
+                        s2.stack = ()
+                        if not any(self.it.same_state(s2, o) for _, o in outs):
+                            outs.append((nm, s2))
+        return outs
+
+    def step_env(self, s0, with_trace=False):
+        """-> list of (environment action, state the step started from, outcomes of the step)"""
+        it = self.it
+        res = []
+        for nm, s in self.env_states(s0):
+            self.stats['steps'] += 1
+            pre = s.copy() if nm != 'none' else None
+            if self.which == 'cmd':
+                self.model.overrides[self.ms.evt_dispatch] = self.ov_evt_havoc
+                try:
+                    outs = it.run_function('cat_service', s, [SELF])
+                finally:
+                    self.model.overrides.pop(self.ms.evt_dispatch, None)
+            else:
+                outs = it.run_function(self.ms.evt_dispatch, s, [SELF])
+            res.append((nm, pre, outs))
+        return res
 
     def step(self, s0, with_trace=False):
-        s = self.pre_step(s0, with_trace)
-        it = self.it
-        self.stats['steps'] += 1
-        if self.which == 'cmd':
-            self.model.overrides[self.ms.evt_dispatch] = self.ov_evt_havoc
-            try:
-                outs = it.run_function('cat_service', s, [SELF])
-            finally:
-                self.model.overrides.pop(self.ms.evt_dispatch, None)
-        else:
-            outs = it.run_function(self.ms.evt_dispatch, s, [SELF])
+        outs = []
+        for nm, pre, o in self.step_env(s0, with_trace):
+            outs.extend(o)
         return outs
 
     def ov_evt_havoc(self, it, fn, args, s, n):
@@ -621,6 +637,7 @@ class Explorer:
         self.transitions = []
         for res in self._pmap(_worker_collect, list(self.store.keys())):
             for t in res:
-                t['pre'] = self.store[t['from_key']][0]
+                # the state the step started from: the stored one, or that after the environment's action
+                t['pre'] = t.get('pre_env') or self.store[t['from_key']][0]
                 self.transitions.append(t)
         return self.transitions
